@@ -324,7 +324,7 @@ def run_loops(desc):
 def xdev_case(draw):
     return {
         'kind': draw(st.sampled_from(['mount', 'mount', 'dirlink',
-                                      'filelink'])),
+                                      'filelink', 'dirlink-as-file'])),
         'where': draw(st.sampled_from(['top', 'sub', 'sub/deep'])),
         'listed': draw(st.booleans()),
         'ignored': draw(st.sampled_from([None, None, 'exact', 'above',
@@ -378,6 +378,14 @@ def run_xdev(desc):
             for i in range(desc['nfiles']):
                 add_file(f'{pos}/m{i}', b'on the other fs\n', desc['listed'])
                 foreign.append(f'{pos}/m{i}')
+            boundary = pos
+        elif desc['kind'] == 'dirlink-as-file':
+            # a name listed as a file that is a directory on the other
+            # filesystem
+            os.mkdir(os.path.join(other, 'dir'))
+            os.symlink(os.path.join(other, 'dir'), os.path.join(root, pos))
+            entries[pos] = b'listed as a file\n'
+            foreign.append(pos)
             boundary = pos
         elif desc['kind'] == 'dirlink':
             os.mkdir(os.path.join(other, 'dir'))
@@ -451,6 +459,21 @@ def run_xdev(desc):
         def handler(err):
             calls.append(os.path.normpath(err.path))
             return False
+        if desc['kind'] == 'dirlink-as-file':
+            if not must_raise:
+                return ok(classes=classes + ['crossing-allowed-or-ignored'])
+            for policy in (False, True, None):
+                oc = gem.verify_lib(root, fail_handler=lambda e: policy,
+                                    loader_kwargs=lk)
+                v = check(f'verify(keep-going, handler returns {policy})',
+                          oc, allow_mismatch=False)
+                if v is not None and v != 'continue':
+                    return v
+            oc, records, _ = gem.cli(['verify', '-k', '-x', root])
+            v = check('cli verify -k -x', oc, allow_mismatch=False)
+            if v is not None and v != 'continue':
+                return v
+            return ok(nontrivial=True, classes=classes)
         if desc['api'] == 'lib':
             oc = gem.verify_lib(root, fail_handler=handler, loader_kwargs=lk)
         else:
